@@ -8,10 +8,12 @@ import (
 )
 
 // checkAccessorShape: the meaning every handler-level rule attaches to an accessor call.
-//   Set/Delete : the single store operation executes on every path (it dominates every return) and, for Set, the value
-//                written is the codec's marshalling of the accessor's own value parameter;
-//   Get        : the value returned is what the codec unmarshals from the bytes read under the key parameter;
-//   Has        : the result is the store's Has for the key parameter.
+//
+//	Set/Delete : the single store operation executes on every path (it dominates every return) and, for Set, the value
+//	             written is the codec's marshalling of the accessor's own value parameter;
+//	Get        : the value returned is what the codec unmarshals from the bytes read under the key parameter;
+//	Has        : the result is the store's Has for the key parameter.
+//
 // fn must contain exactly the one store operation `so`.
 func checkAccessorShape(p *Prog, r *Report, key, what string, so StoreOp, nOpsInFn int) {
 	fn := so.Fn
